@@ -104,6 +104,19 @@ func c09Hostile(r *rand.Rand, valid []byte, ch *refpeer.Channel, p *refpeer.Poli
 			out["forged:opn-typed-chunk-with-policy-none-and-padding-byte"] = b3
 		}
 	}
+	// an OPN-typed chunk under the channel's own policy, properly signed and encrypted - with a key pair of the
+	// attacker's own (certificate in the chunk header), carrying the service message
+	if ch.Sec.RemoteCert != nil {
+		atk := keys.Get("a", 1024)
+		if p.MinKeyBits > 1024 {
+			atk = keys.Get("b", 4096)
+		}
+		if a, err := refpeer.NewAsymCtx(p, atk.Key, atk.Cert, ch.Sec.RemoteCert); err == nil {
+			if b, err := a.SealOPN(ch.ID, seq, reqID, payload, refpeer.PadMinimal, 0); err == nil {
+				out["forged:opn-typed-chunk-signed-with-a-foreign-certificate"] = b
+			}
+		}
+	}
 	// right keys, unknown token id / channel id in the clear header (signature then does not cover what was sent)
 	for name, off := range map[string]int{"channel": 8, "token": 12} {
 		b := append([]byte{}, valid...)
@@ -219,6 +232,38 @@ func c09ServerSide(c *fw.Ctx, idx int64, pm polMode, r *rand.Rand) {
 			cs.Detail = "WriteResponse Good"
 			c.Violation("c09:e2e-server-answered-hostile-chunk:"+name, fmt.Sprintf("%s/%s: the server answered a hostile chunk (%s) with a Good WriteResponse", p.Name, modeName(pm.mode), name), cs)
 		}
+	}
+	// takeover: whoever can inject into the connection asks for a renewal of the channel's token with a certificate
+	// of their own (a well-formed, properly signed OpenSecureChannelRequest) and goes on under the keys of that renewal
+	if ch, tok := session(); ch != nil {
+		atk := keys.Get("a", 1024)
+		if p.MinKeyBits > 1024 {
+			atk = keys.Get("b", 4096)
+		}
+		hij := refpeer.NewChannel(ch.Conn, false, refpeer.Security{Policy: p, Mode: pm.mode, LocalKey: atk.Key, LocalCert: atk.Cert, RemoteCert: sk.Cert})
+		hij.ID, hij.SendSeq, hij.ReqSeq, hij.PeerRecvBuf = ch.ID, ch.SendSeq, ch.ReqSeq+100, ch.PeerRecvBuf
+		cs := c09E2ECase{Side: "server", Policy: p.Name, Mode: pm.mode, Mutation: "renewal-of-the-channel-with-a-foreign-certificate"}
+		c.Journal(idx, cs)
+		ch.Conn.SetReadDeadline(time.Now().Add(2 * time.Second))
+		_, oerr := hij.Open(true, 60000)
+		c.Eval(1)
+		c.Nontrivial("srv|" + p.Name + fmt.Sprint(pm.mode) + "|takeover")
+		if oerr != nil {
+			c.Class("server-side:renewal-with-a-foreign-certificate-refused", 1)
+		} else {
+			bad := int64(idx*1_000_000 + 777)
+			ch.Conn.SetReadDeadline(time.Time{})
+			raw, _ := hij.SealChunk(nil, "MSG", 'F', hij.TakeSeq(), 990, writeBody(hij, tok, bad, 990))
+			hij.WriteRaw(raw)
+			hij.Await(990, 900*time.Millisecond)
+			if got := cur(); got == bad {
+				cs.Detail = fmt.Sprintf("the server renewed the token of a channel opened with the client's certificate for an OpenSecureChannelRequest signed with another certificate, and executed a Write secured with the keys of that renewal (node value %d)", got)
+				c.Violation("c09:e2e-server-renewed-channel-for-a-foreign-certificate", fmt.Sprintf("%s/%s: %s", p.Name, modeName(pm.mode), cs.Detail), cs)
+			} else {
+				c.Class("server-side:renewal-with-a-foreign-certificate-answered-but-without-effect", 1)
+			}
+		}
+		ch.Close()
 	}
 }
 
